@@ -66,6 +66,19 @@ CHECKS = {
             'passes the index scan.',
             'One provider object is reused between histories (subscription table, client pool, wire log, clock, uuid counter are '
             'reset); expiry instants are never hit exactly; "sent" means handed to the subscriber-facing SOAP client.', '3/C08'),
+    'C09': ('I+H', 'exhaustive enumeration of request sequences on the real provider stack (worker loop body driven explicitly) and of all orderings of response and reports on the real consumer OperationsManager; oracle = regular language of invocation-state words per transaction id',
+            'Provider: every single request over 5 operation kinds (SetString, SetValue, Activate, SetContextState, SetAlertState) x '
+            'direct/queued x handler {real, ok, ok-with-modification, returns Fail, raises}, the unknown operation, and pairs of requests '
+            'from two consumers are sent through the real consumer service clients; the real SCO registry and worker loop body execute '
+            'them. Per transaction id the word (response state, report states in wire order) must be Wait.(Wait Start F) or F.(F) with '
+            'exactly one distinct final state, ids unique and increasing, raise => Fail with error information, unknown operation => '
+            'Fail and unchanged snapshot, result handles complete with the final state and the delivered parts. Consumer: every position '
+            'of the response among the 1-3 reports for all five final states, a look-back buffer filled with up to 51 foreign reports, '
+            'and all interleavings of two overlapping transactions are driven on the real OperationsManager: the result handle '
+            'completes exactly once, with the final state and every part delivered before completion, in order.',
+            'The consumer rendez-vous is fully inside one lock, so lock-granularity schedules equal the enumerated sequential orderings; '
+            'races that need a preemption inside generate_transaction_id are the subject of the schedule explorer (not part of this '
+            'check yet).', '3/C09'),
     'C10': ('H', 'explicit-state exploration of histories of set_location, SetContextState invocations (real consumer client, provider SCO worker body, role provider) and context transactions; invariant on the context table and on every EpisodicContextReport',
             'All 2-event histories over 26 events and all 3-event histories over a 7-event core (thorough: larger core): SetContextState '
             'requests with one or two proposals (new / update of the first or second existing state / stale handle x NoAssociation, '
